@@ -30,9 +30,20 @@ pub enum FaultKind {
     Short,
     /// F5: truncated file (early EOF).
     Trunc,
+    /// F1b: permission denied on open (EACCES).
+    Eacces,
+    /// F2b: the path is a directory: open succeeds, every read fails (EISDIR).
+    Eisdir,
 }
-pub const DISK_FAULTS: [FaultKind; 5] =
-    [FaultKind::Enoent, FaultKind::Eio, FaultKind::Eintr, FaultKind::Short, FaultKind::Trunc];
+pub const DISK_FAULTS: [FaultKind; 7] = [
+    FaultKind::Enoent,
+    FaultKind::Eio,
+    FaultKind::Eintr,
+    FaultKind::Short,
+    FaultKind::Trunc,
+    FaultKind::Eacces,
+    FaultKind::Eisdir,
+];
 
 impl FaultKind {
     pub fn name(self) -> &'static str {
@@ -42,6 +53,8 @@ impl FaultKind {
             FaultKind::Eintr => "F3-eintr",
             FaultKind::Short => "F4-short-read",
             FaultKind::Trunc => "F5-truncated",
+            FaultKind::Eacces => "F1b-eacces",
+            FaultKind::Eisdir => "F2b-eisdir",
         }
     }
     pub fn from_name(s: &str) -> Option<Self> {
@@ -716,6 +729,10 @@ impl Env for Sim {
             with_ctx(|c| c.fault_fired = true);
             return Err(io::Error::from(io::ErrorKind::NotFound));
         }
+        if let Some(Fault { kind: FaultKind::Eacces, .. }) = fault {
+            with_ctx(|c| c.fault_fired = true);
+            return Err(io::Error::from(io::ErrorKind::PermissionDenied));
+        }
         let Some(zf) = self.image.get(path) else {
             return Err(io::Error::from(io::ErrorKind::NotFound));
         };
@@ -729,10 +746,12 @@ impl Env for Sim {
             eio_at: None,
             eintr_at: None,
             short: false,
+            eisdir: false,
             registered: tid().is_some(),
         };
         match fault {
             Some(Fault { kind: FaultKind::Eio, at_permille }) => f.eio_at = Some(at(at_permille)),
+            Some(Fault { kind: FaultKind::Eisdir, .. }) => f.eisdir = true,
             Some(Fault { kind: FaultKind::Eintr, at_permille }) => {
                 f.eintr_at = Some(at(at_permille))
             }
@@ -813,6 +832,7 @@ struct SimFile {
     eio_at: Option<usize>,
     eintr_at: Option<usize>,
     short: bool,
+    eisdir: bool,
     registered: bool,
 }
 
@@ -823,6 +843,10 @@ impl Read for SimFile {
             if every > 0 && self.pos % every == every - 1 {
                 sim().yield_point("read", self.pos as u64);
             }
+        }
+        if self.eisdir {
+            with_ctx(|c| c.fault_fired = true);
+            return Err(io::Error::new(io::ErrorKind::Other, "Is a directory (os error 21)"));
         }
         if let Some(at) = self.eio_at {
             if self.pos >= at {
